@@ -39,9 +39,9 @@ pub struct Corpus {
 pub fn n_programs(prop: &str, tier: &str) -> usize {
     // C22 compiles 3-4 variants per program
     match (prop, tier) {
-        ("C22", "thorough") => 160,
+        ("C22", "thorough") => 96,
         ("C22", _) => 32,
-        (_, "thorough") => 320,
+        (_, "thorough") => 192,
         _ => 48,
     }
 }
